@@ -226,6 +226,7 @@ type fnCtx struct {
 	slices  map[string]bool   // locals known to be slices (made with `make([]T, n)`)
 	structVars map[string]string // parameters of a modelled struct type -> that type
 	nilVars    map[string]bool   // … that are pointers the body compares with nil (Options)
+	consts     map[string]string // function-local constants -> their printed value
 	brk     bool              // the innermost loop contains `break` (its body yields Step3)
 }
 
@@ -358,7 +359,7 @@ func trFunc(p *pkgInfo, fd *ast.FuncDecl, tg map[string]bool, externs [][2]strin
 			panic(r)
 		}
 	}()
-	c := &fnCtx{p: p, ranged: map[string]string{}, targets: tg, externs: map[string]bool{}, slices: map[string]bool{}, structVars: map[string]string{}, nilVars: map[string]bool{}}
+	c := &fnCtx{p: p, ranged: map[string]string{}, targets: tg, externs: map[string]bool{}, slices: map[string]bool{}, structVars: map[string]string{}, nilVars: map[string]bool{}, consts: map[string]string{}}
 	var params []string
 	name := fd.Name.Name
 	generic := ""
@@ -689,6 +690,58 @@ func (c *fnCtx) stmts(list []ast.Stmt, ind string) string {
 			return ind + ".brk " + tuple(c.state)
 		}
 		fnFail("branch statement %s not supported", s.Tok)
+	case *ast.SwitchStmt:
+		// a tagless switch whose clauses do not fall through is the if-chain it abbreviates
+		// (`case a, b:` is `a || b`, tested left to right)
+		if s.Init != nil || s.Tag != nil {
+			fnFail("switch with a tag or an init statement")
+		}
+		var chain ast.Stmt
+		var dflt []ast.Stmt
+		var clauses []*ast.CaseClause
+		for _, st := range s.Body.List {
+			cc := st.(*ast.CaseClause)
+			for _, b := range cc.Body {
+				if br, ok := b.(*ast.BranchStmt); ok && (br.Tok == token.FALLTHROUGH || br.Tok == token.BREAK) {
+					fnFail("switch clause with fallthrough or break")
+				}
+			}
+			if cc.List == nil {
+				dflt = cc.Body
+			} else {
+				clauses = append(clauses, cc)
+			}
+		}
+		if dflt != nil {
+			chain = &ast.BlockStmt{List: dflt}
+		}
+		for k := len(clauses) - 1; k >= 0; k-- {
+			cond := clauses[k].List[0]
+			for _, e := range clauses[k].List[1:] {
+				cond = &ast.BinaryExpr{X: cond, Op: token.LOR, Y: e}
+			}
+			chain = &ast.IfStmt{Cond: cond, Body: &ast.BlockStmt{List: clauses[k].Body}, Else: chain}
+		}
+		if chain == nil {
+			return c.stmts(rest, ind)
+		}
+		return c.stmts(append([]ast.Stmt{chain}, rest...), ind)
+	case *ast.DeclStmt:
+		// function-local constants: their value wherever they are used
+		gd, ok := s.Decl.(*ast.GenDecl)
+		if !ok || gd.Tok != token.CONST {
+			fnFail("local declaration other than const")
+		}
+		for _, sp := range gd.Specs {
+			vs := sp.(*ast.ValueSpec)
+			if len(vs.Names) != len(vs.Values) {
+				fnFail("local const without a value")
+			}
+			for i, n := range vs.Names {
+				c.consts[n.Name] = c.expr(vs.Values[i])
+			}
+		}
+		return c.stmts(rest, ind)
 	case *ast.DeferStmt:
 		if isMutexCall(s.Call, c.recv) {
 			return c.stmts(rest, ind) // atomicity is not this translation's subject
@@ -832,7 +885,29 @@ func (c *fnCtx) stmts(list []ast.Stmt, ind string) string {
 		return fmt.Sprintf("%slet (%s) := (%s)\n%s", ind, strings.Join(names, ", "), strings.Join(vals, ", "), c.stmts(rest, ind))
 	case *ast.IfStmt:
 		if s.Init != nil {
-			fnFail("if with an init statement")
+			// `if x := e; c { … }`: the scope of x is the if statement; printed as `let x := e` in front of
+			// it — sound as long as what follows the if does not mention a variable of that name
+			as, ok := s.Init.(*ast.AssignStmt)
+			if !ok || as.Tok != token.DEFINE {
+				fnFail("if with an init statement other than `x := e`")
+			}
+			for _, lhs := range as.Lhs {
+				id, ok := lhs.(*ast.Ident)
+				if !ok {
+					fnFail("if with an init statement other than `x := e`")
+				}
+				for _, r := range rest {
+					ast.Inspect(r, func(n ast.Node) bool {
+						if u, ok := n.(*ast.Ident); ok && u.Name == id.Name {
+							fnFail("the variable of an if-init statement is mentioned after the if")
+						}
+						return true
+					})
+				}
+			}
+			plain := *s
+			plain.Init = nil
+			return c.stmts(append([]ast.Stmt{as, &plain}, rest...), ind)
 		}
 		cond := c.expr(s.Cond)
 		thenL := s.Body.List
@@ -880,6 +955,10 @@ func (c *fnCtx) stmts(list []ast.Stmt, ind string) string {
 		var pre string
 		if id, ok := s.Value.(*ast.Ident); ok && id.Name != "_" {
 			pre = fmt.Sprintf("%s    let %s := Go.idx %s %s\n", ind, id.Name, xs.Name, iv)
+		}
+		if c.slices[xs.Name] {
+			// (a slice made with make: the same print as `for i := 0; i < len(xs); i++`)
+			return c.loop(iv, "(Int.toNat (Go.lenL "+xs.Name+"))", pre, s.Body.List, rest, ind, "")
 		}
 		return c.loop(iv, "(Go.Len.lenN "+xs.Name+")", pre, s.Body.List, rest, ind, xs.Name)
 	default:
@@ -960,6 +1039,9 @@ func (c *fnCtx) expr(e ast.Expr) string {
 		switch x.Name {
 		case "true", "false":
 			return x.Name
+		}
+		if v, ok := c.consts[x.Name]; ok {
+			return v
 		}
 		if x.Obj == nil || x.Obj.Kind == ast.Con {
 			// a package-level duration / integer constant: its value
